@@ -27,6 +27,7 @@ pub mod c07b;
 pub mod c08;
 pub mod c10;
 pub mod c10b;
+pub mod c10c;
 pub mod c11;
 pub mod c12;
 pub mod c13;
@@ -48,6 +49,7 @@ pub fn registry() -> Vec<(&'static str, fn())> {
 	v.extend_from_slice(c01::HARNESSES);
 	v.extend_from_slice(c10::HARNESSES);
 	v.extend_from_slice(c10b::HARNESSES);
+	v.extend_from_slice(c10c::HARNESSES);
 	v.extend_from_slice(c12::HARNESSES);
 	v.extend_from_slice(c13::HARNESSES);
 	v.extend_from_slice(c14::HARNESSES);
